@@ -153,13 +153,14 @@ int disasm_pic18(
         }
         case OP_S:
         {
-          s = (opcode >> 8) & 1;
+          // return / retfie are one word, the s flag is bit 0.
+          s = opcode & 1;
 
           snprintf(instruction, length, "%s%s",
             table_pic18[n].instr,
-            s == 1 ? ", s" : "");
+            s == 1 ? " s" : "");
 
-          return 4;
+          return 2;
         }
         case OP_K8:
         {
